@@ -112,6 +112,8 @@ def judge(ctx, move, label, S, method, args, valid, expected_end, sig_extra=None
         shape = "transport"
     elif valid and move == "gemini.logical.vertical_shift":
         shape = "selected-transport"
+    elif valid and move == "waypoints.move_by_waypoints" and label.split(" ")[0] in ("two", "three"):
+        shape = "legs"
     res, before, sim = simulate(S, evs, extra_occupied, label=f"{move} {label}", round_trip=shape, doc=doc if valid else None)
     if res[0] == "reject":
         ctx.hist(move, "NOT EXECUTABLE " + res[1])
@@ -380,9 +382,11 @@ def run(ctx):
                "  match c with (st, ps, doc) =>\n"
                "    (show_sim (sim_paths st ps) ++ \"|\" ++ show_bool (round_trip_ok (traps st) (occ st) ps) ++ show_bool (transport_ok (traps st) (occ st) ps)\n"
                "     ++ show_bool (transport_sel_ok (traps st) (occ st) ps)\n"
-               "     ++ match doc with Some (zx, zy, sx, sy, dx, dy) => show_bool (documented_transport zx zy sx sy dx dy ps) | None => \"-\" end)%string end.\n"
+               "     ++ match doc with Some (zx, zy, sx, sy, dx, dy) => show_bool (documented_transport zx zy sx sy dx dy ps) | None => \"-\" end\n"
+               "     ++ show_bool (legs_transport_ok (traps st) (occ st) ps))%string end.\n"
                "Eval vm_compute in (lines (map row " + clist([c[0] for c in ch]) + ")).") for k, ch in enumerate(chunks)]
     mism, not_recognised, n_rt, n_tr, not_transport, n_sel, not_sel, n_doc, not_doc = [], [], 0, 0, [], 0, [], 0, []
+    n_legs, not_legs = 0, []
     for ch, (ok, vals, log) in zip(chunks, coqrun.eval_many(ctx.bdir, bodies)):
         if not ok or len(vals) != 1 or len(vals[0]) != len(ch):
             ctx.obligation("coqc simulator file evaluates", False, log[-800:])
@@ -399,6 +403,10 @@ def run(ctx):
                 n_doc += 1
                 if rt[3:4] != "T":
                     not_doc.append({"call": c[2]})
+            if c[3] == "legs" and c[1].startswith("ok"):
+                n_legs += 1
+                if rt[4:5] != "T":
+                    not_legs.append({"call": c[2]})
             if c[3] == "selected-transport" and c[1].startswith("ok"):
                 n_sel += 1
                 if rt[2:3] != "T":
@@ -421,6 +429,10 @@ def run(ctx):
     ctx.correspondence("every accepted valid rearrange call starts on zone[src_x, src_y] and ends on zone[dst_x, dst_y] (documented_transport evaluated "
                        "in Coq), so theorem C08_documented_transport_delivers gives its documented outcome", n_doc, not_doc)
     ctx.count("valid rearrange calls whose documented source/destination grids are confirmed in Coq", n_doc - len(not_doc))
+    ctx.correspondence("every accepted multi-leg waypoint move (pick on the first call, drop on the last) glues into ONE transport path between trap "
+                       "grids (legs_transport_ok evaluated in Coq), so theorems C08_legs_simulate_as_the_merged_path and "
+                       "C08_recognised_multi_leg_move_is_executable_and_delivers apply", n_legs, not_legs)
+    ctx.count("multi-leg waypoint moves recognised by the Coq recogniser", n_legs - len(not_legs))
     kernel_models(ctx)
     ctx.sample({"call": COQ_CASES[0][2], "simulator": COQ_CASES[0][1][:200]} if COQ_CASES else "none")
     ctx.explanation = ("Theorems about the simulator that defines 'physically executable': every accepted sequence of paths conserves the atoms; "
